@@ -268,7 +268,17 @@ class Sim:
             if not live:
                 return None
             orig = live[op['repeat_of'] % len(live)]
-            op = dict(op, files=orig.op_files, bulk=orig.op_bulk)
+            files = list(orig.op_files)
+            if op.get('shuffle'):
+                # the same file set collected in another order (directory entries are created in another order)
+                import random as _random
+                eff = {}
+                for p_, c_ in files:
+                    eff.setdefault(p_ % len(self.paths), c_)
+                files = [[p_, c_] for p_, c_ in eff.items()]
+                _random.Random(op['shuffle']).shuffle(files)
+                self.events.add('repeat-in-other-order')
+            op = dict(op, files=files, bulk=orig.op_bulk)
             self.events.add('explicit-repeat')
         src, model = self._write_fileset(slot, op['files'], op.get('bulk', 0))
         if op.get('bulk'):
@@ -815,8 +825,8 @@ def make_machine(prop, tier, ctx, *, checks, encrypted=None, weights=None, extra
     add('snapshot', w['snapshot'], dict(u=small, f=fileset, c=st.integers(0, 2), n=st.booleans(),
                                         r=st.sampled_from([None, None, None, 10 ** 9, 10 ** 7])),
         lambda u, f, c, n, r: {'op': 'snapshot', 'user': u, 'files': f, 'client': c, 'note': n, 'rate_limit': r})
-    add('repeat_snapshot', w['repeat'], dict(u=small, r=small, c=st.integers(0, 2)),
-        lambda u, r, c: {'op': 'snapshot', 'user': u, 'files': [], 'client': c, 'note': False, 'repeat_of': r})
+    add('repeat_snapshot', w['repeat'], dict(u=small, r=small, c=st.integers(0, 2), sh=st.integers(0, 5)),
+        lambda u, r, c, sh: {'op': 'snapshot', 'user': u, 'files': [], 'client': c, 'note': False, 'repeat_of': r, 'shuffle': sh})
     add('bulk_snapshot', w['bulk'], dict(u=small, f=fileset, c=st.integers(1, 2), b=st.sampled_from([1040, 1100, 1500])),
         lambda u, f, c, b: {'op': 'snapshot', 'user': u, 'files': f, 'client': c, 'note': True, 'bulk': b})
     add('add_user', w['add_user'], dict(k=st.sampled_from(['shared', 'clone', 'independent']), of=small, kdf=st.integers(0, 2)),
